@@ -105,8 +105,12 @@ def scan_sanitizer_log(text, variant):
     return reports
 
 def get_meta(modname, env):
-    code = ("import json,importlib,sys; m=importlib.import_module(%r); "
-            "print('META'+json.dumps({k:getattr(m,k) for k in dir(m) if k.isupper() and isinstance(getattr(m,k),(str,int,float,list,dict,bool,tuple))}))" % modname)
+    code = ("import json,importlib,sys\nm=importlib.import_module(%r)\nd={}\n"
+            "for k in dir(m):\n"
+            "    v=getattr(m,k)\n"
+            "    if k.isupper() and isinstance(v,(str,int,float,list,dict,bool,tuple)):\n"
+            "        try:\n            json.dumps(v); d[k]=v\n        except Exception: pass\n"
+            "print('META'+json.dumps(d))" % modname)
     r = subprocess.run([staging.PY, '-c', code], env=env, capture_output=True, text=True, timeout=600)
     for ln in r.stdout.split('\n'):
         if ln.startswith('META'):
